@@ -128,6 +128,29 @@ func (m *ipamMon) liveReason(podID, uid string, runtime *v1beta1.NodeRuntime) st
 		if q, ok := m.byUID[uid]; ok {
 			p = q
 		}
+	} else {
+		// an entry without UID may belong to any incarnation of the name: a consumer that exists, else one
+		// whose sandbox is still there
+		var exists, sandbox *ipamPod
+		for _, q := range m.byUID {
+			if "ns/"+q.Name != podID || q.Skip != "" {
+				continue
+			}
+			if q.Exists && !q.Exited {
+				exists = q
+			}
+			if q.Sandbox {
+				sandbox = q
+			}
+		}
+		switch {
+		case exists != nil:
+			p = exists
+		case sandbox != nil:
+			p = sandbox
+		default:
+			return ""
+		}
 	}
 	if p == nil {
 		return ""
@@ -320,7 +343,25 @@ func (m *ipamMon) observeNodeCR(before, after *v1beta1.Node) {
 					}
 					if why := m.liveReason(bv.PodID, bv.PodUID, runtime); why != "" {
 						site := strings.ReplaceAll(what, " ", "-")
-						if bv.PodUID == "" && !strings.HasPrefix(why, "pod object exists") {
+						// a pod recreated under the same name took the entry over (the controller identifies
+						// bindings by name): one root cause, its own site
+						successor, incarnations := false, 0
+						for _, q := range m.byUID {
+							if "ns/"+q.Name != bv.PodID {
+								continue
+							}
+							incarnations++
+							if q.Exists && q.UID != bv.PodUID && bv.PodUID != "" {
+								successor = true
+							}
+						}
+						if bv.PodUID == "" && incarnations > 1 {
+							successor = true
+						}
+						switch {
+						case successor:
+							site += "/same-name-successor"
+						case bv.PodUID == "" && !strings.HasPrefix(why, "pod object exists"):
 							site += "/no-uid" // legacy entry: nothing to correlate a teardown report with
 						}
 						m.violate("C03", "C03.reclaimed-while-live", "record/"+site, fmt.Sprintf("address %s bound to %s (uid %q) was %s in the Node record although %s", ip, bv.PodID, bv.PodUID, what, why))
@@ -535,6 +576,10 @@ func newIpamHist(c *ctxT, prop string, hid int, cfg ipamCfg, seed int64) *ipamHi
 	h.cloud.AddVSW("vsw-2", "zone-a", 2, 5000) // the second vSwitch always has room
 	h.cloud.AddInstance("i-1", cfg.Adapters-1, cfg.V4Per, cfg.V6Per, 10)
 	h.cloud.Plan = cfg.Faults
+	if cfg.V4 && cfg.V6 && (cfg.Initial == "partial" || cfg.Initial == "takeover") && h.rng.Intn(2) == 0 {
+		// the cloud refuses IPv6 for a while: pods of a node that was switched to dual stack keep waiting for theirs
+		h.cloud.FailAPI = map[string]int{"AssignIpv6Addresses": 2 + h.rng.Intn(4)}
+	}
 	kn := &corev1.Node{ObjectMeta: metav1.ObjectMeta{Name: "node-1", UID: "node-uid"}}
 	cr := &v1beta1.Node{ObjectMeta: metav1.ObjectMeta{Name: "node-1"}}
 	cr.Spec.NodeMetadata = v1beta1.NodeMetadata{RegionID: "cn-sim", InstanceType: "ecs.sim", InstanceID: "i-1", ZoneID: "zone-a"}
@@ -635,6 +680,7 @@ func newIpamHist(c *ctxT, prop string, hid int, cfg ipamCfg, seed int64) *ipamHi
 			return nil
 		}
 	})
+	h.afterInitial()
 	return h
 }
 
@@ -724,6 +770,11 @@ func (h *ipamHist) initialRecord() {
 		h.c.R.Inconclusive("cannot write the initial record: " + err.Error())
 	}
 	h.mon.lastCR = cr.DeepCopy()
+}
+
+// afterInitial runs once the observers are installed: the upgraded control plane's first reconcile is judged too.
+func (h *ipamHist) afterInitial() {
+	cfg := h.cfg
 	switch cfg.Initial {
 	case "takeover", "partial", "shrink":
 		// the upgraded control plane reconciles once (filling in the pods' UIDs), the restarted agent is
@@ -746,9 +797,11 @@ func (h *ipamHist) initialRecord() {
 	}
 }
 
-func (h *ipamHist) newPod(i int, rdma bool) *ipamPod {
+func (h *ipamHist) newPod(i int, rdma bool) *ipamPod { return h.newPodNamed(fmt.Sprintf("p%d", i), rdma) }
+
+// newPodNamed: also used to recreate a pod under the name of one that is gone (StatefulSet style).
+func (h *ipamHist) newPodNamed(name string, rdma bool) *ipamPod {
 	h.uidGen++
-	name := fmt.Sprintf("p%d", i)
 	p := &ipamPod{Name: name, UID: fmt.Sprintf("uid-%s-%d", name, h.uidGen), RDMA: rdma, Exists: true}
 	h.mon.mu.Lock()
 	h.mon.pods["ns/"+name] = p
@@ -836,8 +889,14 @@ func (h *ipamHist) cniAdd(p *ipamPod) {
 	if !p.Exists || p.Skip != "" {
 		return
 	}
+	h.mon.mu.Lock()
+	cur := h.mon.pods["ns/"+p.Name]
+	h.mon.mu.Unlock()
+	if cur != p {
+		return // an earlier incarnation of the name: kubelet starts no sandbox for it any more
+	}
 	if p.Container == "" {
-		p.Container = "c0"
+		p.Container = "c-" + p.UID
 	}
 	ctx, cancel := context.WithTimeout(context.Background(), 2*time.Second)
 	defer cancel()
@@ -914,7 +973,7 @@ func (h *ipamHist) flush() {
 
 func (h *ipamHist) deletePodObj(p *ipamPod) {
 	cur := &corev1.Pod{}
-	if err := h.cl.Get(context.Background(), client.ObjectKey{Namespace: "ns", Name: p.Name}, cur); err == nil {
+	if err := h.cl.Get(context.Background(), client.ObjectKey{Namespace: "ns", Name: p.Name}, cur); err == nil && string(cur.UID) == p.UID {
 		_ = h.cl.Delete(context.Background(), cur)
 	}
 	h.mon.mu.Lock()
